@@ -478,6 +478,10 @@ func joinOperator(v interface{}, operator string) (string, error) {
 
 			return "!(" + ope + ")", nil
 		}
+		if len(arr) < 2 {
+
+			return "", fmt.Errorf("operator must have at least 2 operands")
+		}
 		ops := make([]string, len(arr))
 		for i := 0; i < len(arr); i++ {
 			ope, err := parseOperand(arr[i], false, false)
